@@ -25,7 +25,7 @@ type Case struct {
 	Clauses [][]int      `json:"clauses,omitempty"`
 	Constrs []gen.PC     `json:"constrs,omitempty"`
 	Cost    *oracle.Cost `json:"cost,omitempty"`
-	Printer string       `json:"printer"` // cnf | pbstring | solver-pbstring | explain-cnf
+	Printer string       `json:"printer"`          // cnf | pbstring | solver-pbstring | explain-cnf
 	Steps   []Step       `json:"steps,omitempty"`  // solver-pbstring: what happens before printing
 	Probes  []uint64     `json:"probes,omitempty"` // assignments whose cost is compared
 	// SolveFirst: a solver is made from the problem and run (Solve, or Optimal when there is a cost function)
